@@ -19,6 +19,7 @@ import Winter.Drv.Util
 import Winter.Model.Security
 import Winter.Gen.Security
 import Winter.Gen.ProofOpts
+import Winter.Gen.ProofContext
 
 namespace Drv.C18
 open Model.Security
@@ -102,12 +103,12 @@ def alphaBad (b n : Nat) : Nat × Nat :=
 
 /-- `security_level(true)` through the REGENERATED `get_conjectured_security` (+ its no-panic condition) -/
 def genLevel (q b g : Nat) (e : Ext) (bytes : List Nat) (n cr : Nat) : String :=
-  match numModulusBits bytes with
-  | .panic _ => "p"
-  | .ok bits =>
+  if !Gen.ProofContext.num_modulus_bits_ok bytes then "p" else
+  let bits := Gen.ProofContext.num_modulus_bits bytes
+  (fun (bits : Nat) =>
     if Gen.Security.get_conjectured_security_ok b e.degree g q bits n cr then
       toString (Gen.Security.get_conjectured_security b e.degree g q bits n cr)
-    else "p"
+    else "p") bits
 
 def handle : List String → String
   | "opts" :: rest =>
@@ -133,7 +134,11 @@ def handle : List String → String
     match natList [l2, b] with
     | some [l2, b] =>
       if l2 < 3 ∨ l2 > 63 ∨ ¬ (b ∈ [2, 4, 8, 16, 32, 64, 128]) ∨ ¬ (field ∈ ["f64", "f62", "f128"]) then "bad-op"
-      else if contextAccepted ⟨1, b, 0, .none, 2, 0⟩ (2 ^ l2) then "ok" else "refused"
+      else
+        -- the model, and `Context::new` as regenerated from air/src/proof/context.rs on this run (tie T)
+        let m := contextAccepted ⟨1, b, 0, .none, 2, 0⟩ (2 ^ l2)
+        let gn := Gen.ProofContext.new_ok (2 ^ l2) b
+        (if m then "ok" else "refused") ++ (if m == gn then "" else s!" gen={gn}")
     | _ => "bad-op"
   | ["plevel", cfg, modhex, cr] =>
     match (cfg.splitOn "/").drop 2 |> natList, unhex modhex, cr.toNat? with
@@ -158,7 +163,13 @@ def handle : List String → String
     | _, _ => "bad-op"
   | ["bits", modhex] =>
     match unhex modhex with
-    | some bytes => if bytes.isEmpty ∨ bytes.length > 255 then "bad-op" else resStr (numModulusBits bytes)
+    | some bytes =>
+      if bytes.isEmpty ∨ bytes.length > 255 then "bad-op" else
+      -- the model, and `num_modulus_bits` as regenerated on this run (tie T)
+      let m := resStr (numModulusBits bytes)
+      let g := if Gen.ProofContext.num_modulus_bits_ok bytes then toString (Gen.ProofContext.num_modulus_bits bytes)
+        else "panic"
+      if m == g then m else s!"{m} gen={g}"
     | none => "bad-op"
   | ["conj", b, g, e, l2, modhex, _hname, cr] =>
     match natList [b, g, e, l2, cr], unhex modhex with
